@@ -41,14 +41,36 @@ func (c *Codec) decodeRoot(jsonData []byte, root j5reflect.Root) error {
 	}
 }
 
+// maxNestingDepth is the deepest nesting of objects and arrays the decoder
+// follows, the same limit encoding/json applies when it decodes a value. The
+// decoder recurses once per level, so without a limit a document of a few
+// megabytes of opening brackets exhausts the goroutine stack, which is fatal.
+const maxNestingDepth = 10000
+
 // decoder is an instance for decoding a single message, not reusable.
 type decoder struct {
 	jd    *json.Decoder
 	codec *Codec
+	depth int
 }
 
 func (d *decoder) Token() (json.Token, error) {
-	return d.jd.Token()
+	tok, err := d.jd.Token()
+	if err != nil {
+		return nil, err
+	}
+	if delim, ok := tok.(json.Delim); ok {
+		switch delim {
+		case '{', '[':
+			d.depth++
+			if d.depth > maxNestingDepth {
+				return nil, fmt.Errorf("exceeded max nesting depth of %d", maxNestingDepth)
+			}
+		case '}', ']':
+			d.depth--
+		}
+	}
+	return tok, nil
 }
 
 func (dec *decoder) expectDelimOrNull(delim rune) (isNull bool, err error) {
